@@ -36,11 +36,7 @@ var c24ClockROM = machine.ProgramCart(0x10, 0x03, map[uint16][]byte{0x100: {
 
 func c24ROMPath(c *Ctx, name string) string {
 	if name == "synthetic:mbc3-clock" {
-		p := filepath.Join(c.Scratch, "synthetic-mbc3-clock.gb")
-		if _, err := os.Stat(p); err != nil {
-			os.WriteFile(p, c24ClockROM, 0o644)
-		}
-		return p
+		return writeOnce(filepath.Join(c.Scratch, "synthetic-mbc3-clock.gb"), c24ClockROM)
 	}
 	if _, ok := c26Synthetic[name]; ok {
 		return c26ROMPath(c, name)
@@ -171,7 +167,7 @@ func c24ROMs(repo string) []string {
 func init() {
 	register("C24", "exploration", func(c *Ctx) {
 		if c.R != nil {
-			c.R.Rule = "every non-empty ROM under testdata x fixed button schedules: the ROM is run through the real gameboy.New / runFrame with display, speakers and serial writer attached, twice in this process (with another ROM run in between) and once in a separate process; after every frame a hash of (registers, every writable memory region, ROM-window probes, frame pixels, drained samples, serial bytes, RTC and APU generator state) and at the end a hash of the full 64 KiB space and the cartridge RAM dump must agree between all three runs; plus five synthetic guest programs, and three runs in which the host stalls the second run for 2.3 s of wall-clock time between two frames (emulated time is counted in machine cycles, so nothing may change); a case = one (ROM, schedule); non-trivial = distinct final state hashes"
+			c.R.Rule = "every non-empty ROM under testdata x fixed button schedules: the ROM is run through the real gameboy.New / runFrame with display, speakers and serial writer attached, twice in this process (with another ROM run in between) and once in a separate process; after every frame a hash of (registers, every writable memory region, ROM-window probes, frame pixels, drained samples, serial bytes, RTC and APU generator state) and at the end a hash of the full 64 KiB space and the cartridge RAM dump must agree between all three runs; plus six synthetic guest programs (one of them switches the noise generator between its long and short register at 96 phases after a trigger), and three runs in which the host stalls the second run for 2.3 s of wall-clock time between two frames (emulated time is counted in machine cycles, so nothing may change); a case = one (ROM, schedule); non-trivial = distinct final state hashes"
 			c.R.Assumptions = []string{"differential replay: there is no nondeterministic choice inside the emulator to enumerate; the check demonstrates that rather than assuming it", "ROMs that the constructor rejects or that run into an undefined opcode are skipped"}
 		}
 		frames, scheds := 60, []int{0, 2}
@@ -189,7 +185,7 @@ func init() {
 					}
 				}
 				// synthetic guest programs (cartridge clock reader; STOP; HALT forever; LCD and sound off; clock halted + DMA)
-				for _, r := range []string{"synthetic:mbc3-clock", "synthetic:stop", "synthetic:halt-forever", "synthetic:lcd-and-sound-off", "synthetic:rtc-halted-dma"} {
+				for _, r := range []string{"synthetic:mbc3-clock", "synthetic:stop", "synthetic:halt-forever", "synthetic:lcd-and-sound-off", "synthetic:rtc-halted-dma", "synthetic:noise-width-phases"} {
 					if !yield(c24Case{ROM: r, Sched: 0, Frames: frames}) {
 						return
 					}
